@@ -524,6 +524,10 @@ AGREEMENT_TREES = {
                                                         ("g", "gi", [("q", "calc2", {"type": "calculate", "label": None, "bind": {"type": "string", "calculate": "2"}})])]), ("q", "v")]),
     "flat groups": ("data", [("g", "fg", [("q", "fa"), ("g", "fh", [("q", "fb")])]), ("q", "fz")]),
     "flat group and repeat": ("data", [("g", "fg", [("q", "fa")]), ("r", "kids", [("q", "kname")]), ("q", "fz")]),
+    "nested groups with their own appearances": ("data", [("g", "page", [("q", "a"), ("g", "inner_fl", [("q", "b")], {"control": {"appearance": "field-list"}}),
+                                                                        ("g", "inner_c", [("q", "c")], {"control": {"appearance": "field-list compact"}}),
+                                                                        ("r", "rows", [("g", "deep", [("q", "d")], {"control": {"appearance": "field-list"}})], {"control": {"appearance": "field-list"}})],
+                                                           {"control": {"appearance": "field-list"}}), ("g", "plain", [("q", "z")], {"control": {"appearance": "w4"}})]),
     "groups and repeats without rows": ("data", [("g", "empty_g", []), ("r", "empty_r", []), ("g", "outer", [("g", "inner_empty", []), ("q", "x")]), ("r", "rr", [("r", "rr_empty", [])]), ("q", "last")]),
 }
 
@@ -604,6 +608,26 @@ def tree_agreement_rule(ctx, prop, rid, want_body=True):
             bwalk(b)
         for tag, k, v in refs:
             r.check(v in paths, f"tree[{tname}]:body <{tag} {k}={v}>", "names a node of the primary instance", sec.methods["xml_control"].loc())
+        # each group's body element carries the appearance written on its own row - whatever its ancestors' appearances are
+        by_ref = {}
+
+        def gwalk(n):
+            if n.tag == "group" and isinstance(n.attrs.get("ref"), str):
+                by_ref[n.attrs["ref"]] = n
+            for c in n.children:
+                if isinstance(c, NV):
+                    gwalk(c)
+        for b in body:
+            gwalk(b)
+        for e in everything:
+            own_app = (e.attrs.get("control") or {}).get("appearance") if e.attrs.get("children") is not None else None
+            if own_app is None or e.attrs.get("type") != "group":
+                continue
+            it.reset([])
+            xp = it.call_function(se.methods["get_xpath"], [e], {}, None, None)
+            gnode = by_ref.get(xp)
+            r.check(gnode is not None and gnode.attrs.get("appearance") == own_app, f"tree[{tname}]:appearance of {e.name}", f"the group's body element has appearance {own_app!r}",
+                    sec.methods["xml_control"].loc(), why_fail=f"got {gnode.attrs.get('appearance') if gnode is not None else 'no body element'!r}")
         if not flat:
             have = {v for tag, k, v in refs if tag in ("group", "repeat")}
             for e in everything:
